@@ -119,16 +119,15 @@ Proof.
       rewrite Hd by (rewrite app_length; lia). rewrite DO, app_assoc. reflexivity.
 Qed.
 
-(* THE ROUND TRIP for explicit point sets of fewer than 32768 points (the count is stored in 15 bits) *)
-Theorem points_roundtrip pts bytes : pts <> [] -> Z.of_nat (length pts) < 32768 ->
+(* THE ROUND TRIP for explicit point sets: whatever compiles (at most 32767 points, gaps below 65536) decodes back to itself *)
+Theorem points_roundtrip pts bytes : pts <> [] ->
   compilePoints pts = Ok bytes -> decompilePoints bytes = Ok (Some pts, []).
 Proof.
-  intros NE L H. unfold compilePoints in H. destruct pts as [|p0 r0] eqn:P; [contradiction|]. rewrite <- P in *.
+  intros NE H. unfold compilePoints in H. destruct pts as [|p0 r0] eqn:P; [contradiction|]. rewrite <- P in *.
   assert (Hpos: 0 < Z.of_nat (length pts)) by (rewrite P; cbn [length]; lia).
   set (n := Z.of_nat (length pts)) in *.
-  assert (Hn: 0 < n < 32768) by lia.
   destruct (compile_runs (S (length pts)) 0 pts) as [runs|e] eqn:E.
-  2:{ destruct (n <? 128); cbn [bind] in H; [discriminate|]. destruct (255 <? Z.lor (Z.shiftr n 8) 128); cbn [bind] in H; discriminate. }
+  2:{ destruct (n <? 128); cbn [bind] in H; [discriminate|]. destruct (32767 <? n); cbn [bind] in H; discriminate. }
   destruct (compile_runs_decode _ 0 pts runs E) as [k [Hk Hd]].
   assert (FIN: decompile_runs (S (length runs)) (length pts) runs [] = Ok (deltas_of 0 pts, [])).
   { replace (S (length runs)) with (k + S (length runs - k))%nat by lia.
@@ -141,7 +140,7 @@ Proof.
     replace (n =? 0) with false by (symmetry; apply Z.eqb_neq; lia).
     unfold n. rewrite Nat2Z.id. rewrite FIN. cbn [bind]. rewrite prefix_deltas. reflexivity.
   - apply Z.ltb_ge in B.
-    destruct (255 <? Z.lor (Z.shiftr n 8) 128) eqn:B2; cbn [bind] in H; [discriminate|].
+    destruct (32767 <? n) eqn:B2; cbn [bind] in H; [discriminate|]. apply Z.ltb_ge in B2.
     apply Ok_inj in H. subst bytes. cbn [app decompilePoints].
     assert (Hh: 0 <= Z.shiftr n 8 < 128) by (rewrite Z.shiftr_div_pow2 by lia; change (2 ^ 8) with 256; lia).
     destruct (run_header (Z.shiftr n 8) Hh) as [_ [_ [H3 H4]]].
@@ -151,3 +150,8 @@ Proof.
     rewrite NN. replace (n =? 0) with false by (symmetry; apply Z.eqb_neq; lia).
     unfold n. rewrite Nat2Z.id. rewrite FIN. cbn [bind]. rewrite prefix_deltas. reflexivity.
 Qed.
+
+(* a count that does not fit 15 bits is refused, never written wrongly *)
+Fixpoint upto (n : nat) (start : Z) : list Z := match n with O => [] | S k => start :: upto k (start + 1) end.
+Example points_too_many_refused : compilePoints (upto (Z.to_nat 32768) 0) = Err ValueError.
+Proof. vm_compute. reflexivity. Qed.
